@@ -34,7 +34,7 @@ PROCS = {"quick": 6, "thorough": 12}
 INVS = ("Inv_C06_CostDecreases Inv_C06_AtMostOneLaunch Inv_C06_SpotToSpotFeature Inv_C06_SpotToSpotAlternatives "
         "Inv_C06_SpotToSpotSettles Inv_C06_NotWorseThanKeeping Inv_C06_EmptyHarmless Inv_C06_PodsSchedulable").split()
 WEAK = {"le": "price", "cheapest": "price", "noPin": "price", "s2sFlag": "price", "s2sFew": "price", "s2sNoTruncate": "price",
-        "sameType": "price", "twoReplacements": "price", "emptyCost": "pods", "noHome": "pods", "noRevalidate": "pods"}
+        "sameType": "price", "twoReplacements": "price", "emptyCost": "pods", "noHome": "pods", "noRevalidate": "pods", "noReprice": "pods"}
 
 
 def closed_models(run):
